@@ -917,7 +917,22 @@ func c11Handoff(r *core.Run, aw *types.Named) {
 	}
 	r.Fn(do)
 	info := do.Pkg.TypesInfo
-	isCtxErr := func(e ast.Expr) bool {
+	var isCtxErr func(e ast.Expr) bool
+	isCtxErr = func(e ast.Expr) bool {
+		// (`if err := ctx.Err(); err != nil { return err }`: a variable all of whose definitions are such calls)
+		if id, isID := ast.Unparen(e).(*ast.Ident); isID {
+			v, isVar := info.Uses[id].(*types.Var)
+			if !isVar || v.IsField() {
+				return false
+			}
+			defs := localDefs(do, v)
+			for _, d := range defs {
+				if d.rng || d.idx >= 0 || !isCtxErr(d.rhs) {
+					return false
+				}
+			}
+			return len(defs) > 0
+		}
 		c, ok := ast.Unparen(e).(*ast.CallExpr)
 		if !ok || len(c.Args) != 0 {
 			return false
